@@ -47,6 +47,7 @@ CHECKERS = {
         ("checkNrMulBasis", "nr_mul_basis", ["base_tower", "nonresidue", "nr_mul_basis"]),
         ("checkFrobeniusC1", "frobenius_c1", ["p", "base_tower", "nonresidue", "frobenius_c1"]),
         ("checkFrobeniusC2", "frobenius_c2", ["frobenius_c1", "frobenius_c2"]),
+        ("checkFrobMulBasis", "frob_mul_basis", ["base_tower", "frobenius_c1", "frobenius_c2", "frob_mul_basis"]),
     ]),
     "fp3x": ("ExtCfg", [
         ("checkFp3TwoAdicity", "fp3_two_adicity", ["p", "two_adicity", "trace_minus_one_div_two"]),
@@ -67,6 +68,7 @@ CHECKERS = {
         ("checkGlvEigen", "eigen", CURVE + ["endo_coeffs", "lambda"]),
         ("checkGlvDecompRows", "decomp_rows", ["r", "lambda", "scalar_decomp_coeffs"]),
         ("checkGlvDet", "decomp_det", ["r", "scalar_decomp_coeffs"]),
+        ("checkGlvDecompShort", "decomp_short", ["r", "scalar_decomp_coeffs"]),
     ]),
     "swu": ("SwuCfg", [
         ("checkSwuZeta", "zeta", ["tower", "zeta"]),
@@ -150,6 +152,19 @@ def L_el(xs):
 def L_els(xss):
     return "[" + ", ".join(L_el(x) for x in xss) + "]"
 
+def L_frob_basis(rows):
+    """quadratic layers: rows of elements; cubic layers: rows of pairs [c1(e), c2(e)] -> flattened"""
+    out = []
+    for row in rows:
+        flat = []
+        for x in row:
+            if x and isinstance(x[0], list):
+                flat += x
+            else:
+                flat.append(x)
+        out.append(L_els(flat))
+    return "[" + ", ".join(out) + "]"
+
 def L_opt(s):
     return "none" if s is None else f"(some {L_nat(s)})"
 
@@ -232,7 +247,8 @@ def render_value(o):
     if k in EXT_KINDS:
         f = [("kind", "." + EXT_KINDS[k]), ("p", L_nat(o["p"])), ("baseTower", L_tw(o["base_tower"])),
              ("nonresidue", L_el(o["nonresidue"])), ("frobC1", L_els(o["frobenius_c1"])),
-             ("frobC2", L_els(o["frobenius_c2"])), ("nrMulBasis", L_els(o["nr_mul_basis"]))]
+             ("frobC2", L_els(o["frobenius_c2"])), ("nrMulBasis", L_els(o["nr_mul_basis"])),
+             ("frobMulBasis", L_frob_basis(o["frob_mul_basis"]))]
         if k == "fp3":
             f += [("twoAdicity", L_nat(o["two_adicity"])),
                   ("traceMinusOneDivTwo", L_nat(o["trace_minus_one_div_two"])),
@@ -541,16 +557,32 @@ def regenerate(harness_bin, cfg, lean_dir, log=print):
     all_txt = "/- GENERATED by tools/gen_consts.py. DO NOT EDIT. -/\n" + "".join(f"import {m}\n" for m in modules)
     if write_if_changed(os.path.join(gen_dir, "All.lean"), all_txt):
         changed.append("Ark/Gen/All.lean")
-    # summary theorems
+    # summary theorems + mathematical reading of the prime-field facts (via the hand-written meaning lemmas)
     s = ["/-\n  GENERATED by tools/gen_consts.py. DO NOT EDIT.\n"
          "  Property C16: every shipped field / curve / pairing configuration passes every checker of\n"
          "  `Ark.Cfg` (Ark/Model/Cfg.lean).  One theorem per crate: the conjunction of the kernel-checked\n"
-         "  facts of Ark/Gen/<Crate>.lean.  What each checker means mathematically: Ark/Props/C16Meaning.lean.\n-/\n"
-         "import Ark.Gen.All\nnamespace Ark.Props.C16\nopen Ark.Cfg Ark.Gen\n\n"]
+         "  facts of Ark/Gen/<Crate>.lean.  What each checker means mathematically: Ark/Props/C16Meaning.lean;\n"
+         "  the second part instantiates those meaning lemmas at every shipped prime field\n"
+         "  (primality of the modulus is the hypothesis `[Fact (Nat.Prime _)]`).\n-/\n"
+         "import Ark.Gen.All\nimport Ark.Props.C16Meaning\nnamespace Ark.Props.C16\nopen Ark.Cfg Ark.Gen\n\n"]
     for crate, (mod, thms) in per_crate_thms.items():
         s.append(f"/-- all {len(thms)} checks of `{crate}` -/\ntheorem {crate}_consistent :\n    "
                  + "\n    ∧ ".join(st for _, st in thms) + " :=\n  ⟨"
                  + ",\n   ".join(tn for tn, _ in thms) + "⟩\n\n")
+    n_cor = 0
+    for o in objs:
+        if o["kind"] != "fp":
+            continue
+        dn = def_name(o)
+        s.append(f"/-- `{o['crate']}::{o['name']}`: the generator is a quadratic non-residue -/\n"
+                 f"theorem {dn}_generator_nonresidue [Fact (Nat.Prime {dn}.modulus)] :\n"
+                 f"    ¬ IsSquare (({dn}.generator : ℕ) : ZMod {dn}.modulus) :=\n"
+                 f"  C16Meaning.generator_is_nonresidue {dn} {dn}_modulus_shape {dn}_generator_qnr\n"
+                 f"/-- `{o['crate']}::{o['name']}`: `TWO_ADIC_ROOT_OF_UNITY` is a primitive `2^s`-th root of unity -/\n"
+                 f"theorem {dn}_two_adic_root_primitive [Fact (Nat.Prime {dn}.modulus)] :\n"
+                 f"    IsPrimitiveRoot (({dn}.twoAdicRoot : ℕ) : ZMod {dn}.modulus) (2 ^ {dn}.twoAdicity) :=\n"
+                 f"  (C16Meaning.two_adic_root_meaning {dn} {dn}_root_of_unity).2.2\n\n")
+        n_cor += 2
     s.append("end Ark.Props.C16\n")
     if write_if_changed(os.path.join(lean_dir, "Ark", "Props", "C16.lean"), "".join(s)):
         changed.append("Ark/Props/C16.lean")
@@ -560,7 +592,7 @@ def regenerate(harness_bin, cfg, lean_dir, log=print):
         kinds[o["kind"]] = kinds.get(o["kind"], 0) + 1
     chk_names = sorted({v["checker"] for v in index.values()})
     summary = {"configurations": len(objs), "crates": len(by_crate), "kinds": kinds, "checkers": len(chk_names),
-               "theorems": len(index), "files_changed": changed, "literal_crosscheck": lstats,
+               "theorems": len(index), "summary_theorems": len(per_crate_thms), "corollaries": n_cor, "files_changed": changed, "literal_crosscheck": lstats,
                "literal_mismatches": len(mism)}
     notes = notes_for(objs)
     log(f"[gen_consts] {len(objs)} configurations in {len(by_crate)} crates/modules, {len(chk_names)} checkers, "
